@@ -535,8 +535,13 @@ func (m *Mux) serveHTTP(w http.ResponseWriter, r *http.Request) error {
 	if sh := m.opts.statsHandler; sh != nil {
 		endTime := time.Now()
 
-		// Try to send Trailers, might not be respected.
-		setOutgoingHeader(w.Header(), stream.trailer)
+		// Try to send Trailers, might not be respected. A key that is also
+		// header metadata keeps the header's values.
+		tr := stream.trailer.Copy()
+		for k := range stream.header {
+			delete(tr, k)
+		}
+		setOutgoingHeader(w.Header(), tr)
 		sh.HandleRPC(ctx, &stats.OutTrailer{
 			Trailer: stream.trailer.Copy(),
 		})
